@@ -557,6 +557,15 @@ def isolation(ctx, match, mpaths):
                     # every turn of the loop offers: no rule is skipped, and
                     # the loop is not left early, whatever the earlier rules
                     # (or this rule's callback) did with the message
+                    # (a turn that found its rule no longer registered -
+                    # a walk over a snapshot - rightly offers nothing)
+                    gone = any(kind(c) == 'cmp' and c[1] in ('in', 'not in')
+                               and contains(c[3], lambda x: x == table) and
+                               (c[1] == 'not in') == pol
+                               for c, pol in bp.cond)
+                    if gone and not offered and bp.outcome not in (
+                            'break', 'return', 'raise'):
+                        continue
                     if not offered or bp.outcome in ('break', 'return',
                                                      'raise'):
                         skipped.append('%s under [%s]' % (
@@ -564,6 +573,41 @@ def isolation(ctx, match, mpaths):
                             if offered else 'rule not offered the message',
                             '; '.join('%s is %s' % (term_str(c)[:50], pol)
                                       for c, pol in bp.cond[-2:])))
+    # "once a rule is removed its callback is never invoked again": walking
+    # the LIVE table never reaches a rule an earlier callback removed; a walk
+    # over a snapshot of it (list(...), tuple(...), sorted(...), a
+    # comprehension) does, unless each turn tests that the rule is still
+    # registered
+    def _live(t):
+        return t == table or (
+            kind(t) == 'call' and kind(t[2]) == 'attr' and t[2][1] == table
+            and t[2][2] in ('values', 'items', 'keys') and not t[3])
+    stale = []
+    for p in Interp(prog, exc_edges=False).run(rfi):
+        for ev in p.trace:
+            if ev[0] == 'loop' and contains(ev[3], lambda x: x == table) \
+                    and not _live(ev[3]):
+                for bp in ev[4]:
+                    offers = any((c[1] or '').endswith('.match') or (
+                        kind(c[2]) == 'attr' and c[2][2] == 'match')
+                        for c in bp.calls())
+                    still = any(
+                        pol and kind(c) == 'cmp' and c[1] == 'in' and
+                        contains(c[3], lambda x: x == table)
+                        for c, pol in bp.cond) or any(
+                        kind(c) == 'cmp' and c[1] in ('is', '==') and pol and
+                        contains(c, lambda x: kind(x) == 'call' and
+                                 kind(x[2]) == 'attr' and x[2][1] == table
+                                 and x[2][2] == 'get')
+                        for c, pol in bp.cond)
+                    if offers and not still:
+                        stale.append(term_str(ev[3])[:60])
+    ctx.ob('C12.D5', rfi.qualname, 'removed-rule-is-not-offered', not stale,
+           'routeMessage walks a snapshot of the rule table (%s) and offers '
+           'the message to each rule in it without testing that the rule is '
+           'still registered: a rule that an earlier callback removed during '
+           'this very dispatch gets the signal once more'
+           % (stale[0] if stale else ''), nontrivial=bool(stale))
     ctx.ob('C12.D5', rfi.qualname, 'every-rule-sees-the-message',
            okr and not skipped,
            'routeMessage must offer the message to every registered rule'
